@@ -27,7 +27,13 @@ TEXTS = [
     ('long-word', 'x' * 120), ('long-hyphenated', '-'.join(['abcdefgh'] * 10)), ('empty', ''),
     ('template-syntax', '{{ x }} {% y %} {# z #}'), ('percent', '100%s %(a)s %'),
     ('long-sentence', ' '.join(['sentence%d' % i for i in range(40)])),
+    # texts that spell the escapes of the OUTPUT languages (what a serialiser writes for ' < > &, named / octal / hex characters)
+    ('bs-html-safe', 'a\\u0027b\\u003cc\\u003ed\\u0026e'), ('bs-named', 'bullet\\N{BULLET} oct\\101 nul\\0 hex\\x41'),
+    ('bs-json', 'slash\\/ b\\b f\\f r\\r U\\U0001F600'),
+    # characters that look like nothing: zero width (no-break) space, joiners, soft hyphen, a direction mark, an astral character
+    ('invisible', 'k\ufeffB z\u200bw j\u200dj s\u00adh r\u200fl a\U0001F600a'),
 ]
+LAYOUT_NAMES = ('multiline', 'crlf', 'bare-cr', 'tab', 'lead-trail', 'bs-trailing', 'triple-apostrophe')
 FRAGMENTS = ['\\', '\\n', "'''", '\n', ' ', 'x' * 80, '-', '\r\n', '{{', '%']
 
 # slot -> (declaration kind, field in the spec, JSON key or path, pysnmp accessor, gated by genTexts)
